@@ -62,7 +62,7 @@ enum = _c + (
     pp.CaselessLiteral('enum')
     - enum_name + _
     - '{'
-    + enum_body('items') + n
+    + enum_body('items') + n + _
     - '}'
 ) + end
 
